@@ -339,6 +339,17 @@ def explore_result_fate(fn, origin_blk, start_blk, dest_key, dest_ty_ix, io_vari
                         aliases.add(lhs)
                     else:
                         return  # stored into a structure: delegated
+                elif any(a[0] == pk[0] and a[1][:len(pk[1])] == pk[1] and len(a[1]) > len(pk[1]) for a in aliases):
+                    # the value that CONTAINS the pending payload is moved as a whole (`res => res?` after a partial
+                    # match on it): the payload moves with it
+                    if lhs == (0, ()):
+                        return  # the whole result is returned to the caller
+                    if lhs[1] == ():
+                        for a in list(aliases):
+                            if a[0] == pk[0] and a[1][:len(pk[1])] == pk[1] and len(a[1]) > len(pk[1]):
+                                aliases.add((lhs[0], a[1][len(pk[1]):]))
+                    else:
+                        return  # stored into a structure: delegated
                 elif is_ref_place(pk, refs):
                     if lhs[1] == ():
                         refs.add(lhs)
@@ -391,6 +402,16 @@ def explore_result_fate(fn, origin_blk, start_blk, dest_key, dest_ty_ix, io_vari
             by_val = [a for a in args if a is not None and a in aliases]
             by_ref = [a for a in args if a is not None and is_ref_place(a, refs)]
             nxt = t.get('ret')
+            container = [a for a in args if a is not None and a not in aliases and any(
+                x[0] == a[0] and x[1][:len(a[1])] == a[1] and len(x[1]) > len(a[1]) for x in aliases)]
+            if container and not by_val:
+                # the result holding the pending error payload is handed over whole
+                if callee == 'core::ops::try_trait::Try::branch' and nxt is not None:
+                    step(nxt, ('whole', frozenset({place_key(t['dest'])}), frozenset(), frozenset(), frozenset(),
+                               t['dest_ty'], True), path, oe)
+                    return
+                stats['delegated'] = stats.get('delegated', 0) + 1
+                return
             if by_val:
                 rm = result_method(callee)
                 if callee == 'core::ops::try_trait::Try::branch' and nxt is not None:
